@@ -324,6 +324,53 @@ var MutOps = []mutOp{
 		}
 		return false
 	}},
+	{"proto3-closed-enum", func(t *rapid.T, w *Workspace) bool {
+		// a message of a proto3 file may not have a field of a closed enum type, whatever the field's label
+		type cand struct {
+			m *Message
+			e *Enum
+		}
+		var cs []cand
+		for _, f := range w.Files {
+			if f.Syntax != Proto3 {
+				continue
+			}
+			vis := w.Visible(f)
+			var closed []*Enum
+			for _, g := range w.Files {
+				if vis[g.Name] {
+					g.AllEnums(func(e *Enum) {
+						if e.Closed {
+							closed = append(closed, e)
+						}
+					})
+				}
+			}
+			if len(closed) == 0 {
+				continue
+			}
+			f.AllMessages(func(m *Message) {
+				free := !m.IsGroup
+				for _, fl := range m.Fields {
+					free = free && fl.Number != 18999 && fl.Name != "zz_closed"
+				}
+				for _, r := range append(append([]Range{}, m.Reserved...), m.ExtRanges...) {
+					free = free && (18999 < r.Lo || 18999 > r.Hi)
+				}
+				if free {
+					for _, e := range closed {
+						cs = append(cs, cand{m, e})
+					}
+				}
+			})
+		}
+		if len(cs) == 0 {
+			return false
+		}
+		c := Pick(t, cs, "closedenum-site")
+		c.m.Fields = append(c.m.Fields, &Field{Name: "zz_closed", Number: 18999, Label: Pick(t, []string{"repeated", "optional"}, "closedenum-label"), Type: "enum", TypeFQN: c.e.FQN, Oneof: -1})
+		return true
+	}},
 	{"default-on-repeated", func(t *rapid.T, w *Workspace) bool {
 		c := msgsOf(w, func(f *File, m *Message) bool {
 			for _, fl := range m.Fields {
